@@ -1554,28 +1554,92 @@ func ruleLoaderGuard(c *Ctx, ls *loaderSSA) {
 					continue
 				}
 				nTests++
-				reports := false
-				for _, b2 := range f.Blocks {
-					decided := false
-					for _, cc := range controlCondsPol(b2) {
-						if backSlice(cc.Cond)[tv] {
-							decided = true
+				// decidesCycle: a block of fn that is decided by v has the cycle kind as an operand (stored into the
+				// error, or handed to a constructor of errors)
+				hasCycleKind := func(in2 ssa.Instruction) bool {
+					for _, op := range in2.Operands(nil) {
+						if k, ok := (*op).(*ssa.Const); ok && k.Value != nil && k.Value.Kind() == constant.Int && typeHasSuffix(k.Type(), "include.ErrorKind") {
+							if kv, exact := constant.Int64Val(k.Value); exact && kv == ls.cycleK {
+								return true
+							}
 						}
 					}
-					if !decided {
-						continue
-					}
-					for _, in2 := range b2.Instrs {
-						// the cycle kind as an operand: stored into the error, or handed to a constructor of errors
-						for _, op := range in2.Operands(nil) {
-							if k, ok := (*op).(*ssa.Const); ok && k.Value != nil && k.Value.Kind() == constant.Int && typeHasSuffix(k.Type(), "include.ErrorKind") {
-								if v, exact := constant.Int64Val(k.Value); exact && v == ls.cycleK {
-									reports = true
+					return false
+				}
+				var decidesCycle func(fn *ssa.Function, v ssa.Value, depth int) bool
+				decidesCycle = func(fn *ssa.Function, v ssa.Value, depth int) bool {
+					for _, b2 := range fn.Blocks {
+						decided := false
+						for _, cc := range controlCondsPol(b2) {
+							if backSlice(cc.Cond)[v] {
+								decided = true
+							}
+						}
+						if !decided {
+							continue
+						}
+						for _, in2 := range b2.Instrs {
+							if hasCycleKind(in2) {
+								return true
+							}
+							// ... or calls a local constructor of errors that names the cycle kind itself
+							// (`refuse := func(msg string) (bool, []LoadError) { ... Kind: ErrorCycleDetected ... }`)
+							if call, ok := in2.(ssa.CallInstruction); ok {
+								var fns []*ssa.Function
+								if cal := call.Common().StaticCallee(); cal != nil && inModule(cal) {
+									fns = append(fns, cal)
+								} else if !call.Common().IsInvoke() {
+									fns = funcsBehind(call.Common().Value, 0)
+								}
+								for _, g := range fns {
+									for _, gb := range g.Blocks {
+										for _, gi := range gb.Instrs {
+											if hasCycleKind(gi) {
+												return true
+											}
+										}
+									}
 								}
 							}
 						}
 					}
+					// the test sits in a predicate (`isAncestor(path) bool`, a verdict helper): its result is judged
+					// where it is used - at every call site
+					if depth >= 2 {
+						return false
+					}
+					returned := false
+					for _, b2 := range fn.Blocks {
+						if ret, ok := lastInstr(b2).(*ssa.Return); ok {
+							for _, rv := range ret.Results {
+								if backSlice(rv)[v] {
+									returned = true
+								}
+							}
+							// a verdict computed by branching on the test (`if s.ancestors[p] { return cycle }`)
+							for _, cc := range controlCondsPol(b2) {
+								if len(ret.Results) > 0 && backSlice(cc.Cond)[v] {
+									returned = true
+								}
+							}
+						}
+					}
+					if !returned {
+						return false
+					}
+					sites := (cgView{c}).callersOf(fn)
+					if len(sites) == 0 {
+						return false
+					}
+					for _, site := range sites {
+						sv, ok := site.(ssa.Value)
+						if !ok || site.Parent() == nil || !decidesCycle(site.Parent(), sv, depth+1) {
+							return false
+						}
+					}
+					return true
 				}
+				reports := decidesCycle(f, tv, 0)
 				c.check(reports, "G-TESTUSE", funcName(f), "a test of the ancestor set leads to a cycle diagnostic", ins.Pos(),
 					"the membership test decides a block that builds the cycle error",
 					"the set of files that are currently being included is consulted without a cycle diagnostic depending on the outcome (a filter): an include that re-enters such a file is dropped silently instead of being reported on the directive that names it")
